@@ -172,7 +172,10 @@ CLAIMED["C10"] = dict(
          "plus T-route: the 5 stitched update instances and the 5 stitched finalize instances are translated from the "
          "current source on every run (gen_mhupdate.py, gen_mhfin.py) and have to equal the programs whose meaning is "
          "proved (canon_mh_update / mhupdate_absorbs; canon_fin, mur_reads_buffered: murmur3 is fed exactly the buffered "
-         "bytes before the mh tail overwrites them, with the 32-bit total length).",
+         "bytes before the mh tail overwrites them, with the 32-bit total length); the 64-bit arithmetic of "
+         "_murmur3_x64_128_block / _tail (helpers inlined by gen_murmur.py) is proved to be the MurmurHash3_x64_128 body step "
+         "of Spec/Murmur3.lean and the tail arithmetic of the model (canon_block_step, canon_tail_arith, murmurTail_eq); the "
+         "loop frame / byte gathering around it is shape-compared, not proved.",
     note=_MH_NOTE, technique="Lean 4 proof over hand-written model + differential correspondence per family; Lean 4 proof over "
                               "source-translated update/tail/finalize programs (per-run decide obligations)",
     engine="MultiHash", ref="5 C10")
